@@ -3,6 +3,7 @@
 import json, glob, os, re
 ROOT = os.path.dirname(os.path.dirname(os.path.abspath(__file__)))
 rows = []
+statuses = []
 for m in sorted(glob.glob(os.path.join(ROOT, "seeded", "*", "meta.json"))):
     d = json.load(open(m))
     sid = d.get("id") or os.path.basename(os.path.dirname(m))
@@ -10,10 +11,11 @@ for m in sorted(glob.glob(os.path.join(ROOT, "seeded", "*", "meta.json"))):
     det = d.get("detection", {})
     how = det.get("how", "").replace("|", "/")
     rows.append("| %s | %s | %s | %s |" % (sid, title[:110], det.get("status", "?"), how[:420]))
+    statuses.append(det.get("status", "?"))
 n = len(rows)
-late = sum(1 for r in rows if "after strengthening" in r)
-missed = sum(1 for r in rows if "| missed" in r)
-other = sum(1 for r in rows if "(by ./check" in r)
+late = sum(1 for st in statuses if "after strengthening" in st)
+missed = sum(1 for st in statuses if st.startswith("missed") or st.startswith("not caught"))
+other = sum(1 for st in statuses if "(by ./check" in st)
 text = "### 0.6 Seeded changes and the checks that catch them\n\n" \
        "%d changes written by independent sub-agents (property text and a scratch worktree only), each confirmed by me\n" \
        "(applies, builds, the touched packages' tests pass, its demonstration fails with it and passes without it) and\n" \
@@ -21,9 +23,10 @@ text = "### 0.6 Seeded changes and the checks that catch them\n\n" \
        "machinery was strengthened; what was added is in the last column. The check of the change's own property\n" \
        "(`./check <id> quick`) is the one that catches it, except for %d changes that were written against one property\n" \
        "but break a clause of another (status `caught (by ./check ...)`: it is that check which reports them). %d\n" \
-       "changes are not caught; each row says why (one is dead code under the Go release the harness has to use, one\n" \
-       "stopped breaking the property when a defect next to it was fixed, two would need oracles or failure\n" \
-       "injections I decided against). The how column is cut at 420 characters; the full text is in the meta.json.\n\n" \
+       "changes are not caught; each row says why (two sit in heuristics that only see the hellos of real crypto/tls\n" \
+       "clients, which cannot produce the triggering extension order; one is dead code under the Go release the harness\n" \
+       "has to use; one stopped breaking the property when a defect next to it was fixed; the others would need oracles\n" \
+       "or failure injections I decided against). The how column is cut at 420 characters; the full text is in the meta.json.\n\n" \
        "| id | change | status | caught by (oracle [signature]) |\n|---|---|---|---|\n" % (n, late, other, missed) + "\n".join(rows) + "\n\n"
 p = os.path.join(ROOT, "DESIGN.md")
 s = open(p).read()
